@@ -22,6 +22,15 @@ use text::*;
 use transport::*;
 
 static PANICKED: AtomicBool = AtomicBool::new(false);
+/// read chunks actually delivered in the last case, if some scripted chunk had to be split
+static LAST_CLIP: Mutex<Option<String>> = Mutex::new(None);
+
+fn note_clip(shared: &Arc<Mutex<Shared>>) {
+    let s = shared.lock().unwrap();
+    if s.clipped {
+        *LAST_CLIP.lock().unwrap() = Some(s.delivered.iter().map(|d| hex(d)).collect::<Vec<_>>().join(","));
+    }
+}
 
 // ---- counting allocator (peak live heap, for the "never bloats" clause) ----
 struct Counting;
@@ -184,6 +193,7 @@ fn run_cli(tokens: &[&str], errno: Option<i32>) -> String {
         };
         outs.push(out);
     }
+    note_clip(&shared);
     outs.join(" ; ")
 }
 
@@ -406,6 +416,7 @@ fn run_srv(ctx: &mut SrvCtx, tokens: &[&str]) -> String {
             _ => false,
         };
         // snapshot while a still-waiting connection task is alive (it stays parked in the runtime)
+        note_clip(&shared);
         finish_trace(&shared, timed_out)
     });
     trace
@@ -608,6 +619,7 @@ fn main() {
     for line in stdin.lock().lines() {
         let line = line.unwrap();
         PANICKED.store(false, Ordering::SeqCst);
+        *LAST_CLIP.lock().unwrap() = None;
         let base = LIVE.load(Ordering::Relaxed);
         PEAK.store(base, Ordering::Relaxed);
         let res = catch_unwind(AssertUnwindSafe(|| run_line(&mut ctx, &line, errno)));
@@ -616,7 +628,8 @@ fn main() {
             Ok(s) if !PANICKED.load(Ordering::SeqCst) || s.contains("PANIC") => s,
             _ => "PANIC".to_string(),
         };
-        writeln!(out, "{txt}\t{peak}").unwrap();
+        let clip = LAST_CLIP.lock().unwrap().take().unwrap_or_else(|| "-".into());
+        writeln!(out, "{txt}\t{peak}\t{clip}").unwrap();
     }
     out.flush().unwrap();
 }
